@@ -5,6 +5,7 @@ import (
 	"go/ast"
 	"go/token"
 	"go/types"
+	"sort"
 	"strings"
 
 	"golang.org/x/tools/go/ssa"
@@ -693,6 +694,8 @@ func r30MultiPolygonMerge(c *core.Ctx) {
 	// call f(part, ids)
 	var callRes types.Object
 	var mid *ast.RangeStmt
+	midInfo := info
+	midMapArg := func(o types.Object) types.Object { return o } // the result map as named in processMultiPolygon
 	okCall := false
 	for _, s := range outer.Body.List {
 		switch st := s.(type) {
@@ -707,6 +710,39 @@ func r30MultiPolygonMerge(c *core.Ctx) {
 			if callRes != nil && core.ObjOf(info, st.X) == callRes {
 				mid = st
 			}
+		case *ast.ExprStmt:
+			// the merge loop in a module helper: helper(resultMap, partResult)
+			call, ok := st.X.(*ast.CallExpr)
+			if !ok || callRes == nil {
+				continue
+			}
+			callee := core.Callee(info, call)
+			if callee == nil {
+				continue
+			}
+			h := c.P.ByObj[callee.Origin()]
+			if h == nil || h.Decl.Body == nil || !core.IsModPath(h.Pkg.PkgPath) {
+				continue
+			}
+			hs := h.Obj.Type().(*types.Signature)
+			for i, a := range call.Args {
+				if i >= hs.Params().Len() || core.ObjOf(info, a) != callRes {
+					continue
+				}
+				for _, hsn := range h.Decl.Body.List {
+					if r, ok := hsn.(*ast.RangeStmt); ok && core.ObjOf(h.Pkg.TypesInfo, r.X) == hs.Params().At(i) && len(h.Decl.Body.List) == 1 {
+						mid, midInfo = r, h.Pkg.TypesInfo
+						midMapArg = func(o types.Object) types.Object {
+							for j := 0; j < hs.Params().Len() && j < len(call.Args); j++ {
+								if hs.Params().At(j) == o {
+									return core.ObjOf(info, call.Args[j])
+								}
+							}
+							return nil
+						}
+					}
+				}
+			}
 		}
 	}
 	c.Check(R, "every-part-snapped-with-all-ids/"+f.Name, outer.Pos(), okCall && !jump && mid != nil,
@@ -714,8 +750,8 @@ func r30MultiPolygonMerge(c *core.Ctx) {
 	if mid == nil {
 		return
 	}
-	key := core.ObjOf(info, mid.Key)
-	val := core.ObjOf(info, mid.Value)
+	key := core.ObjOf(midInfo, mid.Key)
+	val := core.ObjOf(midInfo, mid.Value)
 	okAppend := false
 	var resMap types.Object
 	ast.Inspect(mid.Body, func(n ast.Node) bool {
@@ -724,24 +760,24 @@ func r30MultiPolygonMerge(c *core.Ctx) {
 			return true
 		}
 		lix, ok := as.Lhs[0].(*ast.IndexExpr)
-		if !ok || core.ObjOf(info, lix.Index) != key {
+		if !ok || core.ObjOf(midInfo, lix.Index) != key {
 			return true
 		}
 		call, ok := as.Rhs[0].(*ast.CallExpr)
-		if !ok || !core.IsBuiltinCall(info, call, "append") || len(call.Args) < 2 {
+		if !ok || !core.IsBuiltinCall(midInfo, call, "append") || len(call.Args) < 2 {
 			return true
 		}
 		rix, ok := call.Args[0].(*ast.IndexExpr)
-		if !ok || core.ObjOf(info, rix.Index) != key || !core.SameObj(info, rix.X, lix.X) {
+		if !ok || core.ObjOf(midInfo, rix.Index) != key || !core.SameObj(midInfo, rix.X, lix.X) {
 			return true
 		}
 		// appended element: the inner range value over `val`
 		path := pathTo(mid.Body, as)
 		for _, pn := range path {
-			if inner, ok := pn.(*ast.RangeStmt); ok && core.ObjOf(info, inner.X) == val && val != nil {
-				if core.ObjOf(info, call.Args[1]) == core.ObjOf(info, inner.Value) {
+			if inner, ok := pn.(*ast.RangeStmt); ok && core.ObjOf(midInfo, inner.X) == val && val != nil {
+				if core.ObjOf(midInfo, call.Args[1]) == core.ObjOf(midInfo, inner.Value) {
 					okAppend = true
-					resMap = core.ObjOf(info, lix.X)
+					resMap = midMapArg(core.ObjOf(midInfo, lix.X))
 				}
 			}
 		}
@@ -764,18 +800,33 @@ func r30MultiPolygonMerge(c *core.Ctx) {
 		}
 		bad := ""
 		n := 0
-		if resVal != nil && resVal.Referrers() != nil {
-			for _, r := range *resVal.Referrers() {
-				mu, ok := r.(*ssa.MapUpdate)
-				if !ok || mu.Map != resVal {
-					continue
+		if resVal != nil {
+			// stores into the result map here and in the module helpers it is handed to
+			flow := core.FlowOpts{Idx: c.P.SiteIndex(c.P.VTA()), Follow: func(g *ssa.Function) bool { return core.IsModPath(core.FuncPkgPath(g)) }}.Run([]ssa.Value{resVal})
+			hosts := map[*ssa.Function]bool{f.SSA: true}
+			for v := range flow {
+				if prm, ok := v.(*ssa.Parameter); ok && prm.Parent() != nil {
+					hosts[prm.Parent()] = true
 				}
+			}
+			var mus []*ssa.MapUpdate
+			for h := range hosts {
+				for _, b := range h.Blocks {
+					for _, in := range b.Instrs {
+						if mu, ok := in.(*ssa.MapUpdate); ok && flow[mu.Map] {
+							mus = append(mus, mu)
+						}
+					}
+				}
+			}
+			sort.Slice(mus, func(i, j int) bool { return mus[i].Pos() < mus[j].Pos() })
+			for _, mu := range mus {
 				n++
 				call, isCall := mu.Value.(*ssa.Call)
 				okv := false
 				if isCall {
 					if _, isApp := isBuiltinCall(call, "append"); isApp && len(sliceLitElems(call.Call.Args[1])) >= 1 {
-						if lk, ok := call.Call.Args[0].(*ssa.Lookup); ok && lk.X == resVal && lk.Index == mu.Key {
+						if lk, ok := call.Call.Args[0].(*ssa.Lookup); ok && lk.X == mu.Map && lk.Index == mu.Key {
 							okv = true
 						}
 					}
